@@ -26,8 +26,15 @@ func ZZ_C13_ObfuscateSpec() {
 	}
 	n := pls[verifChoice("payloadLen", len(pls))]
 	p := verifBytes("payload", n)
-	ob, err := newSalamanderObfuscator(key)
+	// the caller's key lives in a larger buffer (spare capacity behind it) and the
+	// caller wipes that buffer once the obfuscator exists: the key is fixed at wrap time
+	backing := make([]byte, len(key)+16)
+	copy(backing, key)
+	ob, err := newSalamanderObfuscator(backing[:len(key)])
 	verifAssert(err == nil && ob != nil, "keys of 4+ bytes are accepted")
+	for i := range backing {
+		backing[i] = 0xee
+	}
 	out := make([]byte, n+smSaltLen)
 	k := ob.Obfuscate(p, out)
 	verifAssert(k == n+smSaltLen, "obfuscated length is payload + 8")
